@@ -21,6 +21,29 @@ import z3
 CURRENT = None  # the active context (symbolic or concrete)
 
 
+def guarded_check(solver, timeout_ms):
+    """solver.check() with a watchdog: z3's own timeout is not always honoured by nlsat,
+    so a timer interrupts the context; an interrupted check counts as `unknown`."""
+    import threading
+    fired = []
+
+    def stop():
+        fired.append(True)
+        z3.main_ctx().interrupt()
+    t = threading.Timer(timeout_ms / 1000.0 * 1.25 + 1.0, stop)
+    t.daemon = True
+    t.start()
+    try:
+        r = solver.check()
+    except z3.Z3Exception:
+        r = z3.unknown
+    finally:
+        t.cancel()
+    if fired:
+        return z3.unknown
+    return r
+
+
 class PathAbort(BaseException):
     """Base of the engine's control-flow exceptions (BaseException so that
     `except Exception` in the code under test does not swallow them)."""
@@ -107,7 +130,7 @@ class SymCtx:
             sv.set("timeout", self.timeout_ms)
             sv.add(*self.pc)
             sv.add(*extra)
-            r = sv.check()
+            r = guarded_check(sv, self.timeout_ms)
             m = sv.model() if r == z3.sat else None
         else:
             if extra:
@@ -159,7 +182,7 @@ class SymCtx:
             sv.set("timeout", min(self.timeout_ms, 5000))
             sv.add(*self.hyps)
             sv.add(e)
-            r = sv.check()
+            r = guarded_check(sv, min(self.timeout_ms, 5000))
         else:
             self.light.push()
             self.light.add(e)
@@ -402,7 +425,7 @@ class SymCtx:
             s = z3.Solver()
             s.set("timeout", 5000)
             s.add(z3.Not(e))
-            r = s.check()
+            r = guarded_check(s, 5000)
             self.solver_s += time.time() - t0
             self.nq["generalised_" + str(r)] += 1
             return r == z3.unsat
@@ -511,6 +534,22 @@ class SymCtx:
         for a in ax:
             self.add_hyp(a)
         return X, Y
+
+    def exp_const_base(self, q):
+        """(exp(1/q), exp(-1/q)) with the linking axioms exp(1/q)^q = e for all bases in use."""
+        bases = self.aux.setdefault("_exp_bases", {})
+        if q in bases:
+            return bases[q]
+        X, Y = self.exp_atom(z3.RealVal(f"1/{q}"))
+        for q2, (X2, _) in bases.items():
+            a, b = z3.RealVal(1), z3.RealVal(1)
+            for _ in range(q):
+                a = a * X
+            for _ in range(q2):
+                b = b * X2
+            self.add_hyp(a == b)
+        bases[q] = (X, Y)
+        return bases[q]
 
     def sqrt_term(self, u):
         key = ("sqrt", u.get_id())
@@ -874,6 +913,8 @@ def explore_subtree(body, root, opts, deadline, witness_every=0, sample_cap=3, m
         n += 1
         agg.add_path(s)
         stack.extend(new)
+        if opts.get("_stop_on_violation") and agg.violations:
+            break
         if s["status"] == "ok":
             want_w = witness_every and (n % witness_every == 1 or witness_every == 1)
             if want_w or len(agg.samples) < sample_cap:
@@ -940,6 +981,8 @@ def explore(body, opts=None, nproc=None, time_budget_s=600, witness_every=0, spl
             n += 1
             agg.add_path(s)
             queue.extend(new)
+            if opts.get("_stop_on_violation") and agg.violations:
+                return agg
             if s["status"] == "ok" and len(agg.samples) < 2:
                 global CURRENT
                 CURRENT = ctx
@@ -984,6 +1027,9 @@ def explore(body, opts=None, nproc=None, time_budget_s=600, witness_every=0, spl
             pending.extend(a.remaining)
             a.remaining = []
             agg.merge(a)
+            if opts.get("_stop_on_violation") and agg.violations:
+                pool.terminate()
+                break
     return agg
 
 
